@@ -60,7 +60,17 @@ def sibling_pair(rng):
         ea, eb = bin_("-", V("F.I"), V("F.J")), bin_("-", V("F.J"), V("F.I"))
         ea, eb = bin_(">", ea, atom(cint(0))), bin_(">", eb, atom(cint(0)))
     elif shape == "selector":
-        if rng.chance(0.5):
+        if rng.chance(0.4):
+            # selectors on call results: same selector, different receivers — and the other way round
+            if rng.chance(0.5):
+                ea = bin_("==", atom(sel(meth(var(root("F")), "GetA"), atom(cint(0)))), atom(cint(1)))
+                eb = bin_("==", atom(sel(meth(var(root("F")), "GetM"), atom(cstr("b")))), atom(cint(1)))
+                if rng.chance(0.5):
+                    eb = bin_("==", atom(sel(meth(var(root("F")), "GetA2"), atom(cint(0)))), atom(cint(2)))
+            else:
+                ea = bin_("==", atom(sel(meth(var(root("F")), "GetA"), atom(cint(0)))), atom(cint(1)))
+                eb = bin_("==", atom(sel(meth(var(root("F")), "GetA"), atom(cint(1)))), atom(cint(1)))
+        elif rng.chance(0.5):
             ea = bin_("==", atom(var(idx(path("F.A"), atom(cint(0))))), atom(cint(1)))
             eb = bin_("==", atom(var(idx(path("F.A"), atom(cint(1))))), atom(cint(1)))
         else:
